@@ -1067,6 +1067,9 @@ VARIANTS = {
     "islice#big-step": ("islice", lambda L, S: L.islice(S[0], 0, 10 ** 6, 40)),
     "islice#definite-stop": ("islice", lambda L, S: L.islice(S[0], 0, 10 ** 6)),
     "islice#start-and-stop": ("islice", lambda L, S: L.islice(S[0], 3, 10 ** 6, 2)),
+    "merge#sync-generators": ("merge", lambda L, S: L.merge(*[sync_gen(x) for x in S], key=lambda x: x.k)),
+    "zip#sync-generators": ("zip", lambda L, S: L.zip(*[sync_gen(x) for x in S])),
+    "accumulate#sync-generator": ("accumulate", lambda L, S: L.accumulate(sync_gen(S[0]), lambda a, b: None)),
     "batched#threes": ("batched", lambda L, S: L.batched(S[0], 3)),
     "nlargest#ascending": ("nlargest", lambda L, S: L.nlargest(S[0], 5, key=lambda x: x.p)),
     "nsmallest#descending": ("nsmallest", lambda L, S: L.nsmallest(S[0], 5, key=lambda x: -x.p)),
@@ -1105,6 +1108,20 @@ class ForgetfulSource:
 
     async def aclose(self):
         self.items = []
+
+    def take(self):
+        x = self.items[self.pos]
+        self.items[self.pos] = None
+        self.pos += 1
+        self.hook(x)
+        return x
+
+
+def sync_gen(src):
+    """The same stream as a lazy synchronous generator (a regular iterable that is no sequence): nothing but the item
+    just handed out has left it."""
+    while src.pos < len(src.items):
+        yield src.take()
 
 
 def c20_run(args):
